@@ -2,6 +2,7 @@ import G3D.Proofs.Move
 import G3D.Proofs.Polyhedron
 import G3D.Proofs.Equality
 import G3D.Proofs.Composite
+import G3D.Proofs.K5
 /-! # C05 — membership (`in`) agrees with exact containment
     `den` is the point set denoted (parametric definition for flats, convex hull of the vertices for
     polygons / polyhedra).  Full for Point in Line/HalfLine/Segment/Plane/ConvexPolygon and for the
@@ -77,4 +78,20 @@ theorem polygon_in_plane (P : Polygon) (hv : P.Valid) (pl : Plane) (hpl : pl.WF)
 theorem polygon_in_polyhedron_partial (B : Polyhedron) (hv : B.VertsInside) (P : Polygon)
     (h : ∀ x, InHull P.pts x → InHull B.verts x) : B.containsPolygon P = true :=
   Polyhedron.containsPolygon_of_hull B hv P h
+
+/-! ### kernel K5 — membership in a polyhedron is membership in the hull of its vertices (both directions) -/
+/-- for a Valid closed convex polyhedron (faces Valid, vertices on the inner side of every face, closed surface, an
+    interior point) the face tests accept exactly the convex combinations of the vertices; faces / edges / vertices count -/
+theorem point_in_polyhedron (B : Polyhedron) (hV : B.Valid) (x : V3) : B.contains x = true ↔ InHull B.verts x :=
+  Polyhedron.contains_iff_hull B hV x
+/-- the decidable judge implies `Valid` (evaluated on implementation-built bodies) -/
+theorem polyhedron_judge_sound (B : Polyhedron) (h : B.validB = true) : B.Valid := Polyhedron.valid_of_validB B h
+theorem segment_in_polyhedron (B : Polyhedron) (hV : B.Valid) (s : Seg) :
+    B.containsSeg s = true ↔ ∀ x, s.den x → InHull B.verts x := by
+  unfold Polyhedron.containsSeg
+  rw [Bool.and_eq_true, Polyhedron.contains_iff_hull B hV, Polyhedron.contains_iff_hull B hV]
+  constructor
+  · rintro ⟨ha, hb⟩ x ⟨t, h0, h1, rfl⟩; exact ha.convex hb t h0 h1
+  · intro h; exact ⟨h _ s.den_endpoints.1, h _ s.den_endpoints.2⟩
+
 end G3D.Props.C05
